@@ -10,7 +10,7 @@ every image that meets the explicit, decidable layout predicate `ValidElf` and e
 lemmas the surgery rests on; and the negation of "a malformed executable is rejected with an error
 rather than a crash" by concrete witnesses, which replay on the real code (known finding C19-F9).
 The general statement for **PE** is *not* proved (DESIGN.md, C19: partial) - for small file alignments
-it is false of the code (`C19_pe_small_alignment_witness`, known finding C19-F10). -/
+the code was wrong until this session (`C19_pe_small_alignment_repaired`, finding C19-F10, fixed in /repo). -/
 namespace Rj.C19
 open Rj.Exe
 
@@ -68,15 +68,16 @@ example : (match addPe pe1 [0x2e, 0x72] [1, 2] with
 
 def pe2 : Bytes := [0, 0, 0, 0, 0, 0, 0, 0, 0, 0, 0, 0, 0, 0, 0, 0, 0, 0, 0, 0, 0, 0, 0, 0, 0, 0, 0, 0, 0, 0, 0, 0, 0, 0, 0, 0, 0, 0, 0, 0, 0, 0, 0, 0, 0, 0, 0, 0, 0, 0, 0, 0, 0, 0, 0, 0, 0, 0, 0, 0, 68, 0, 0, 0, 0, 0, 0, 0, 80, 69, 0, 0, 0, 0, 1, 0, 0, 0, 0, 0, 0, 0, 0, 0, 0, 0, 0, 0, 64, 0, 0, 0, 0, 0, 0, 0, 0, 0, 0, 0, 0, 0, 0, 0, 0, 0, 0, 0, 0, 0, 0, 0, 0, 0, 0, 0, 0, 0, 0, 0, 0, 0, 0, 0, 16, 0, 0, 0, 16, 0, 0, 0, 0, 0, 0, 0, 0, 0, 0, 0, 0, 0, 0, 0, 0, 0, 0, 0, 0, 0, 0, 0, 0, 0, 0, 0, 46, 115, 48, 0, 0, 0, 0, 0, 16, 0, 0, 0, 16, 0, 0, 0, 16, 0, 0, 0, 208, 0, 0, 0, 0, 0, 0, 0, 0, 0, 0, 0, 0, 0, 0, 0, 0, 0, 0, 0, 0, 0, 0, 0, 0, 0, 0, 0, 0, 0, 0, 0, 228, 177, 71, 200, 194, 249, 221, 29, 43, 245, 49, 21, 108, 253, 216, 70]
 
-/-- (3) **Known finding C19-F10**: one section, `FileAlignment` 16, only 8 bytes between the section table and the
-first raw data: `add_section_to_pe` makes room by inserting *one* file alignment (16 bytes), which with the
-gap is less than the 40 bytes of the section header it then writes — the header runs into the first
-section's raw data.  The call succeeds, the payload reads back, but the bytes of section 0 (16 bytes at
-offset 208 of the input, at 224 of the output) are **not** the original ones.  (The model is of the code as
-it is: this replays on the real function, byte for byte.) -/
-theorem C19_pe_small_alignment_witness :
+/-- (3) **Finding C19-F10, repaired in /repo (dedda2b)**: one section, `FileAlignment` 16, only 8 bytes between the section
+table and the first raw data.  `add_section_to_pe` used to make room by inserting *one* file alignment (16 bytes), which
+with the gap is less than the 40 bytes of the section header it then writes - the header ran into the first section's raw
+data.  It now inserts as many whole file alignments as the header needs (here 32): the 16 bytes of section 0 (offset 208 of
+the input) are found unchanged at 240, where the updated `PointerToRawData` (header field at 156+20) points, and the payload
+reads back.  (A *test* on the image that exposed the defect; it replays on the real function, byte for byte.) -/
+theorem C19_pe_small_alignment_repaired :
     (match addPe pe2 [0x2e, 0x72] [1, 2, 3, 4] with
-     | .ok out => decide ((out.drop 224).take 16 ≠ (pe2.drop 208).take 16) &&
+     | .ok out => decide ((out.drop 240).take 16 = (pe2.drop 208).take 16) &&
+                  decide (leVal ((out.drop 176).take 4) = 240) &&
                   decide (extractPe out [0x2e, 0x72] = .ok (some ([1, 2, 3, 4] ++ zeros 12)))
      | _ => false) = true := by
   decide +kernel
